@@ -362,13 +362,18 @@ if cmdline.as_server is not None:
 
 # generate reports
 # - ensure UTF-8 encoding for output (not standard with Windows Python)
+# - characters that cannot be encoded are replaced
+#   (an answer of the proofreader may contain half of a surrogate pair)
 #
-out_utf8 = open(sys.stdout.fileno(), mode='w', encoding='utf-8')
+out_utf8 = open(sys.stdout.fileno(), mode='w', encoding='utf-8',
+                    errors='replace')
 
 if cmdline.output == 'plain' or cmdline.list_unknown:
     from yalafi.shell import gentext
     gentext.init(vars)
     # do not enforce UTF-8: we might be working in a Windows command console
+    if hasattr(sys.stdout, 'reconfigure'):
+        sys.stdout.reconfigure(errors='replace')
     gentext.generate_text_report(proofreader.run_proofreader, sys.stdout)
 elif cmdline.output in ('xml', 'xml-b'):
     from yalafi.shell import genxml
